@@ -7,11 +7,12 @@ import N0Verif.Val
     `n0dict_.to_json` / `n0list_.to_json` fix (`show_type=False, auto_quotes=False,
     __quotes='"', json_convention=True, show_item_count=False`), with all of
     `indent`, `pairs_in_one_line`, `compress`, `skip_empty_arrays`.
-    The model follows the code **with the fix patches C11-a, C11-c, C11-d applied**
+    The model follows the code **with the fix patches C11-a, C11-c, C11-d, C11-f applied**
     (JSON string escaping of values and keys through `json.dumps(…, ensure_ascii=False)`,
     no comma after the blanks of an absent first column in the pair layout,
     `skip_empty_arrays` really skips items/entries whose text is empty and `to_json`
-    prints `{}` / `[]` when nothing is left).
+    prints `{}` / `[]` when nothing is left, dict entries are read with `dict.__getitem__`
+    and not through the xpath resolver of `n0dict`).
   * `jsonDecode` — a reader following CPython's `json.loads` (C scanner): RFC 8259
     plus the three constants `NaN`, `Infinity`, `-Infinity` that `json.loads` accepts.
     Numbers keep their lexeme when they are floats (floats are opaque in `Val`).
